@@ -31,5 +31,7 @@ Definition read_varint (s : bytes) : result (Z * bytes) :=
 Definition encode_varstr (b : bytes) : result bytes :=
   l <- encode_varint (zlen b) ;; Ok (l ++ b).
 
+(* BytesIO.read(n) raises OverflowError for n > sys.maxsize = 2^63 - 1 *)
 Definition read_varstr (s : bytes) : result (bytes * bytes) :=
-  '(n, r) <- read_varint s ;; Ok (readz n r).
+  '(n, r) <- read_varint s ;;
+  if 9223372036854775808 <=? n then Err else Ok (readz n r).
